@@ -38,6 +38,7 @@ const DEVIATIONS: &[&str] = &[
     "amount-2^127",
     "amount-2^128-1",
     "amount-2^255",
+    "amount-2^128-plus-small",
     "payload-truncated",
     "payload-padded",
     "payload-noncanonical-offset",
@@ -231,7 +232,7 @@ pub fn run(ctx: &Ctx, rep: &mut Report) {
             // ------------------------------------------------------------ deviations first
             let mut devs: Vec<&str> = DEVIATIONS.to_vec();
             rng.shuffle(&mut devs);
-            devs.truncate(12);
+            devs.truncate(13);
             for dev in devs {
                 if !alive {
                     break;
@@ -308,11 +309,15 @@ pub fn run(ctx: &Ctx, rep: &mut Report) {
                             continue;
                         }
                         let good = addr_bytes(&conf.recipient);
-                        let bad: Vec<u8> = match rng.below(4) {
+                        let bad: Vec<u8> = match rng.below(7) {
                             0 => vec![],
                             1 => good[..good.len() - 1].to_vec(),
                             2 => rng.bytes(32),
-                            _ => [good.clone(), vec![0]].concat(),
+                            3 => [good.clone(), vec![0]].concat(),
+                            // well-formed XDR of values that are not addresses
+                            4 => xdr_of(&sv_str(b"GAAAAAAAAAAAAAAAAAAAAAAAAAAAAAAAAAAAAAAAAAAAAAAAAAAAAWHF")),
+                            5 => xdr_of(&sv_u32(42)),
+                            _ => xdr_of(&sv_bytes(&good)),
                         };
                         let inner = MItsMsg::Transfer { token_id: conf.token_id, source: conf.source.clone(), dest: bad, amount: conf.amount, amount_hi: 0, data: conf.data.clone() };
                         full(MHubMsg { to_hub: false, chain: conf.origin.clone(), inner }.encode())
@@ -321,24 +326,29 @@ pub fn run(ctx: &Ctx, rep: &mut Report) {
                         if kind != "deploy" {
                             continue;
                         }
-                        let bad: Vec<u8> = match rng.below(3) {
+                        let bad: Vec<u8> = match rng.below(6) {
                             0 => vec![1, 2, 3],
                             1 => rng.bytes(32),
-                            _ => {
+                            2 => {
                                 let g = addr_bytes(&w.users[0]);
                                 g[..g.len() - 2].to_vec()
                             }
+                            // well-formed XDR of values that are not addresses
+                            3 => xdr_of(&sv_str(b"0xminter")),
+                            4 => xdr_of(&sv_u32(42)),
+                            _ => xdr_of(&sv_vec(vec![sv_addr(&sc_addr(&w.users[0]))])),
                         };
                         let inner = MItsMsg::Deploy { token_id: conf.token_id, name: conf.name.clone(), symbol: conf.symbol.clone(), decimals: conf.decimals, minter: bad };
                         full(MHubMsg { to_hub: false, chain: conf.origin.clone(), inner }.encode())
                     }
-                    "amount-2^127" | "amount-2^128-1" | "amount-2^255" => {
+                    "amount-2^127" | "amount-2^128-1" | "amount-2^255" | "amount-2^128-plus-small" => {
                         if kind == "deploy" {
                             continue;
                         }
                         let (lo, hi) = match dev {
                             "amount-2^127" => (1u128 << 127, 0u128),
                             "amount-2^128-1" => (u128::MAX, 0),
+                            "amount-2^128-plus-small" => (1000, *rng.pick(&[1u128, 1 << 20, 1 << 63, (1 << 64) - 1])),
                             _ => (0, 1u128 << 127),
                         };
                         let inner = MItsMsg::Transfer { token_id: conf.token_id, source: conf.source.clone(), dest: addr_bytes(&conf.recipient), amount: lo, amount_hi: hi, data: conf.data.clone() };
@@ -560,5 +570,5 @@ pub fn run(ctx: &Ctx, rep: &mut Report) {
     req.extend(KINDS.iter().map(|k| format!("conforming:{}", k)));
     rep.notes.insert("required".into(), json!(req));
     rep.notes.insert("token_mode".into(), json!("native"));
-    rep.notes.insert("rule".into(), json!("per universe 5 rounds: a conforming delivery (transfer to a service-deployed token, release of a locked canonical asset, transfer with data to a destination application, remote deploy; origin chain drawn from the currently trusted chains while one chain's trust flips between rounds) and, before it, 12 of 29 single deviations, each delivered at a checkpoint together with the approval that matches it in every other respect: never approved, approved for other payload / id / source address / contract, source chain or source address not the hub's, send-to-hub or out-of-range outer type, unsupported inner type, type words whose low byte is a supported tag but whose higher bytes are not zero, origin never trusted or no longer trusted, unknown token, undecodable recipient or minter, amounts 2^127 / 2^128-1 / 2^255, truncated / padded / non-canonical-offset payload, padded inner message, insufficient custody, failing application, deploy for a taken id or with empty name/symbol; then the conforming delivery (effects and consumption checked), the same delivery again, and again after re-approval. distinct = (conforming kind, deviation, outcome)"));
+    rep.notes.insert("rule".into(), json!("per universe 5 rounds: a conforming delivery (transfer to a service-deployed token, release of a locked canonical asset, transfer with data to a destination application, remote deploy; origin chain drawn from the currently trusted chains while one chain's trust flips between rounds) and, before it, 13 of 30 single deviations, each delivered at a checkpoint together with the approval that matches it in every other respect: never approved, approved for other payload / id / source address / contract, source chain or source address not the hub's, send-to-hub or out-of-range outer type, unsupported inner type, type words whose low byte is a supported tag but whose higher bytes are not zero, origin never trusted or no longer trusted, unknown token, undecodable recipient or minter (garbage, truncated, or well-formed XDR of a value that is not an address), amounts 2^127 / 2^128-1 / 2^128+1000 (bits 128..191 set) / 2^255, truncated / padded / non-canonical-offset payload, padded inner message, insufficient custody, failing application, deploy for a taken id or with empty name/symbol; then the conforming delivery (effects and consumption checked), the same delivery again, and again after re-approval. distinct = (conforming kind, deviation, outcome)"));
 }
